@@ -47,6 +47,7 @@ func vpAPIBase() map[string]intrinsicFn {
 		"vpStrN":         vpStrN,
 		"vpDump":         vpDump,
 		"vpConstStr":     vpConstStr,
+		"vpEngineOption": vpEngineOption,
 		"vpBytesN":       vpBytesN,
 		"vpAssume":       vpAssume,
 		"vpAssert":       vpAssert,
@@ -463,4 +464,17 @@ func vpGo(e *Engine, st *State, fn *ssa.Function, a []Value, s ssa.Instruction) 
 		}
 	}
 	return outs
+}
+
+// vpEngineOption(name, v): the harness selects an exploration option of the engine for itself
+// (merge policy, limits); options change cost, never the meaning of a verdict.
+func vpEngineOption(e *Engine, st *State, fn *ssa.Function, a []Value, s ssa.Instruction) []Outcome {
+	name, ok := argString(a[0])
+	v, ok2 := a[1].(*Term).ConstVal()
+	if !ok || !ok2 {
+		panic(unsupported("vpEngineOption needs constants"))
+	}
+	e.harnessOpts[name] = int(v)
+	e.rep.Bounds[name] = int(v)
+	return one(st, nil)
 }
